@@ -19,8 +19,8 @@ def run(ctx):
     for line in open(pre + ".obs"):
         d = json.loads(line)
         n += 1
-        shapes.add((d["no_refresh_token"], d["expires_in"], d["tau"], d["inactivity_ns"] > 0))
-        small = {k: d[k] for k in ("no_refresh_token", "expires_in", "tau", "maxlife_ns", "inactivity_ns", "login")}
+        shapes.add((d["no_refresh_token"], d["expires_in"], d["tau"], d["inactivity_ns"] > 0, d["store_clock_skew_ns"]))
+        small = {k: d[k] for k in ("no_refresh_token", "expires_in", "tau", "maxlife_ns", "inactivity_ns", "login", "store_clock_skew_ns")}
         for st in d["steps"]:
             for k, ttl in st["ttls"].items():
                 lock = k.endswith(".lock")
